@@ -16,6 +16,8 @@ FAMILIES = {
     "udn2_m": [(1, 0.0), (1, 0.62), (1, -0.6)],
     # connected double null whose X-points sit on slightly different flux surfaces
     "cdn_pert": [(1, 0.0), (1, -0.6), (1, 0.6005)],
+    # ... and its mirror image: there the UPPER X-point is the primary one
+    "cdn_pert_m": [(1, 0.0), (1, -0.6005), (1, 0.6)],
 }
 
 
